@@ -199,6 +199,11 @@ func (r *rec) checkTerm(e *sched.Exec, c *call) *sched.Failure {
 			return fail("3", "term-signal", "Terminate(%s) by %s sent signal %d to %d (group=%v), expected SIGTERM to the process group %d%s", c.op.proc, c.thread, ev.Sig, ev.Pid, ev.Group, pgid, r.where(e))
 		}
 	}
+	// (judged only where nothing else can make virtual time pass during the call: one operator thread - no concurrent
+	// Kill holding the supervisor's lock until its deadline - and no timer that overtook a runnable thread)
+	if c.endNs != c.startNs && len(r.sp.ops) <= 1 && e.EarlyClock == 0 {
+		return fail("3", "terminate-waits", "Terminate(%s) by %s returned %d ms of virtual time after it was called: it must deliver the signal without waiting%s", c.op.proc, c.thread, (c.endNs-c.startNs)/1e6, r.where(e))
+	}
 	if n > 1 || (n == 0 && !c.reapedAtEnd) {
 		return fail("3", "term-signal", "Terminate(%s) by %s delivered %d SIGTERMs to the group (process reaped at return: %v), expected exactly one%s", c.op.proc, c.thread, n, c.reapedAtEnd, r.where(e))
 	}
